@@ -8,7 +8,7 @@ META = dict(
     functions=["remote_dep_rank_to_bit", "remote_dep_bit_to_rank",
                "remote_dep_bcast_star_child", "remote_dep_bcast_chainpipeline_child", "remote_dep_bcast_binomial_child",
                "remote_dep_reset_forwarded", "remote_dep_mark_forwarded", "remote_dep_is_forwarded",
-               "parsec_gather_collective_pattern", ACT],
+               "parsec_gather_collective_pattern", ACT, "remote_deps_free", "remote_deps_allocate"],
     explanation="Contracts on the real parsec/remote_dep.c / remote_dep.h, harness route (V_ASSUME pre; call; V_ASSERT post), vocabulary in "
                 "spec/C13/c13_spec.h (position b = (rank-root) mod np; first(b) = first output of the mask whose set contains b; idx(b) = "
                 "canonical order of b inside the tree of first(b); parent(topo,idx)).  Leaves: rank<->(bank,bit) mutually inverse and equal to "
@@ -26,6 +26,13 @@ META = dict(
                 "run at the root and at every activated process, np in 2..8, all topologies, all masks, ALL families of 3 destination sets "
                 "= 21 symbolic bits): every destination receives exactly one activation, non-destinations none, parents precede children, "
                 "no payload is packed for an output the destination does not consume, the payload of the first output is always delivered. "
+                "Descriptor life cycle (job recycle, real remote_deps_free / remote_deps_allocate / parsec_lifo_push / _pop): invariant 'the "
+                "descriptor is clean' = every output[k], k < max_dep_count (4 = all elements of the harness object), has count_bits 0 and "
+                "an all-zero destination set (two words), masks and pending_ack 0.  free: from ANY state a finished task can leave (each "
+                "output independently unused or used with arbitrary set, gaps included; root / priorities / preferred_device arbitrary) the "
+                "descriptor is clean and on its free list; allocate (recycling path) hands out that descriptor, clean, root -1, taskpool "
+                "NULL.  Clean is the precondition under which gather's contract (set |= position, count_bits = cardinality) makes the sets "
+                "exactly those recorded for the new task, the starting point of the activate contract and of the lemma.  "
                 "The clause 'the destination receives the payload of EVERY output whose set contains it' is its own job per topology "
                 "(lemma.payload.*): it holds for the star, and FAILS for chain and binomial (genuine defect, see MANIFEST note); on the "
                 "restricted domain 'sets pairwise disjoint or equal' it holds for all three (lemma.payload_nestfree.*).",
@@ -42,6 +49,11 @@ META = dict(
                   "through pointers and are covered by --pointer-check",
                   "remote_dep_complete_and_cleanup's release branch (pending_ack reaches 0) is unreachable under the contract's precondition; "
                   "its loops are unwound once and their unwinding assertions are discharged (so no cut path is feasible)",
+                  "job recycle: the free list starts empty with head NULL as PARSEC_OBJ_CONSTRUCT(parsec_lifo_t) leaves it (written by the "
+                  "harness); no other thread touches the free list between the push and the pop (CAS loops succeed at once: their "
+                  "unwinding assertions are discharged); the FRESH-allocation path of remote_deps_allocate (empty free list: "
+                  "parsec_lifo_item_alloc + memset + output wiring) is not examined -- it needs the byte-level object that CBMC cannot "
+                  "combine with the typed output[4] view",
                   "meta-steps: (i) the canonical order is the same at every process because every process walks the same sets "
                   "(iterate_successors of generated code is deterministic: C02/C05), (ii) induction on the position from the lemma's "
                   "obligations to 'every destination is reached exactly once'"],
@@ -49,6 +61,9 @@ META = dict(
                  "is READ from remote_dep_mpi.c:1397-1399 and used as spec_packed in the lemma; it is not discharged against the code here",
                  "on the ROOT a destination set contains only remote processes (parsec_release_dep_fct records dst_rank != src_rank); on a forwarder the root's own position may be present (rebuilt by parsec_gather_collective_pattern for successors living on the root; symbolic in the activate jobs and in the lemma); every output of the mask has at least one remote consumer "
                  "for every output of the mask; count_bits equals the set's cardinality on entry (kept by h_gather's contract)",
+                 "between allocate and activate the root's sets are filled by parsec_release_dep_fct (parsec.c) with the same 'set |= position, "
+                 "count_bits++ if new' step as parsec_gather_collective_pattern (whose contract is discharged); parsec_release_dep_fct itself "
+                 "is not under contract here",
                  "pending_ack is 0 when the root starts activate and >= 1 at a forwarder (unit taken by remote_dep_release_incoming); "
                  "concurrent completion of sends by the communication thread while activate is still running is not modelled "
                  "(lifetime of the deps object is another property)",
@@ -101,6 +116,12 @@ def jobs(tier):
             functions=["remote_dep_reset_forwarded", "remote_dep_mark_forwarded", "remote_dep_is_forwarded"], min_obligations=5),
         Job("gather", "h_rdep.c", entry="h_gather", unwind=34, defines={"NP": 8}, extra_cc=H, checks=PC, timeout=300,
             functions=["parsec_gather_collective_pattern"], min_obligations=5),
+        # descriptor life cycle: free (any subset of outputs in use, gaps included) -> clean -> allocate (recycling) -> clean
+        Job("recycle", "h_rdep.c", entry="h_recycle", unwind=1, extra_cc=H, checks=PC, timeout=300,
+            unwindset={"h_recycle.0": 5, "h_recycle.1": 5, "h_recycle.2": 5, "clean_descriptor.0": 3, "clean_descriptor.1": 5,
+                       "setup_common.0": 4, "remote_deps_free.0": 5, "remote_deps_free.1": 5, "remote_deps_free.2": 5,
+                       "remote_deps_free.3": 5, "spec_popcount.0": 33},
+            functions=["remote_deps_free", "remote_deps_allocate"], min_obligations=12),
         Job("lemma.composition", "h_lemma.c", entry="h_lemma", unwind=9, functions=[], timeout=600, min_obligations=6),
     ]
     for t in (0, 1, 2):
